@@ -120,7 +120,7 @@ def x2_copy_before_share(ctx) -> None:
                     cache_names.add(k.value.id)
     for l in walk_local(f):
         if isinstance(l, ast.For) and isinstance(l.iter, ast.Name):
-            if any(isinstance(c, ast.Call) and norm(c.func).endswith("ruledb.add") for c in ast.walk(l)):
+            if any(isinstance(c, ast.Call) and isinstance(c.func, ast.Attribute) and c.func.attr == "add" and len(c.args) == 3 for c in ast.walk(l)):
                 cache_names.add(l.iter.id)
     if not cache_names:
         raise AnalysisError("X2: cannot find the rule list that seeds the new database in expand_comb_class")
@@ -210,13 +210,18 @@ def x3_same_root_and_seed(ctx) -> None:
         ctx.violation("X3", f, "the inner search must start from a fresh queue that holds the label of the class being expanded",
                       construct=f"{SPEC}.expand_comb_class queue")
     # the reverse flag is switched on only after seeding
-    sets = [n for n in walk_local(f) if isinstance(n, ast.Assign) and norm(n.targets[0]).endswith("ruledb.reverse")]
-    seeds = [l for l in walk_local(f) if isinstance(l, ast.For) and any(isinstance(c, ast.Call) and norm(c.func).endswith("ruledb.add") for c in ast.walk(l))]
-    created = [c for c in walk_local(f) if isinstance(c, ast.Call) and norm(c.func) == "RuleDBForest"]
+    created = [n for n in walk_local(f) if isinstance(n, (ast.Assign, ast.AnnAssign)) and isinstance(getattr(n, "value", None), ast.Call)
+               and norm(n.value.func) == "RuleDBForest"]
+    dbname = None
+    if created:
+        t = created[0].targets[0] if isinstance(created[0], ast.Assign) else created[0].target
+        dbname = norm(t)
+    sets = [n for n in walk_local(f) if isinstance(n, ast.Assign) and dbname and norm(n.targets[0]) == f"{dbname}.reverse"]
+    seeds = [l for l in walk_local(f) if isinstance(l, ast.For) and dbname and any(isinstance(c, ast.Call) and norm(c.func) == f"{dbname}.add" for c in ast.walk(l))]
     ok_rev = bool(sets and seeds and created)
     if ok_rev:
-        kw = {k.arg: norm(k.value) for k in created[0].keywords}
-        ok_rev = kw.get("reverse") == "False" and all(C.followed_by(f, seeds[0], s) for s in sets)
+        kw = {k.arg: norm(k.value) for k in created[0].value.keywords}
+        ok_rev = kw.get("reverse") == "False" and all(C.followed_by(f, seeds[0], s2) for s2 in sets) and all(norm(s2.value) == m.params()[3] for s2 in sets)
     if ok_rev:
         ctx.ok("X3", "the old rules are seeded without their reverses; the reverse option applies to the expansion only")
     else:
